@@ -51,9 +51,19 @@ W5 == { <<Boot, LBoot, PRet(0, "bootcap", 9, 0 - 1), Hold("release", 0 - 1), LRe
           x \in { <<>>, <<Call(2, 1, 1, "root", 9)>>, <<Call(2, 1, 1, "root", 9), Call(3, 1, 2, "root", 9)>> },
           y \in { <<>>, <<Ret(1, "ok-nocap"), Fin(2, FALSE)>>, <<Call(4, 1, 3, "root", 9), Ret(3, "ok-nocap")>> } }
 
+\* W6: a pipelined local call is in flight while the Return of the question it is pipelined on arrives, and that Return resolves
+\* to a capability of this vat: the embargo must cover the call in flight (RpcEmbargo, caller role)
+LKeep(h, t) == [Act("l-call") EXCEPT !.h = h, !.tag = t, !.kind = "keep"]
+LPipe(on, t) == [Act("l-pcall") EXCEPT !.on = on, !.tag = t]
+PRetLoop(i, exp, tag) == [Act("p-return") EXCEPT !.q = i, !.kind = "loopcap", !.exp = exp, !.tag = tag]
+Pump == Act("p-pump")
+W6 == { <<Boot, LBoot, PRet(0, "bootcap", 9, 0 - 1), LKeep("boot", 100)>> \o pre \o <<Hold("call", 0 - 1), LPipe(100, 5), PRetLoop(1, 1, 100), Go>> \o post :
+          pre \in { <<>>, <<LPipe(100, 4)>> },
+          post \in { <<LPipe(100, 6), Pump, Pump, Pump>>, <<Pump, LPipe(100, 6), Pump, Pump>>, <<LPipe(100, 6), LPipe(100, 7), Pump, Pump, Pump>> } }
+
 VARIABLE done
 Init == done = FALSE
 Next == /\ ~done /\ done' = TRUE
-        /\ \A s \in W1 \cup W2 \cup W3 \cup W4 \cup W5 : PrintT(<<"SCRIPT", ToJson(s)>>)
+        /\ \A s \in W1 \cup W2 \cup W3 \cup W4 \cup W5 \cup W6 : PrintT(<<"SCRIPT", ToJson(s)>>)
 Spec == Init /\ [][Next]_done
 =============================================================================
